@@ -229,7 +229,19 @@ Section Proofs.
   (* ----------------------------------------------------------------------------------------- *)
   (* fee policy *)
 
-  Notation WF := state_wf.
+  (* the invariant carried through every run, failing or not: the state stays well-formed and its configuration
+     (protocol parameters, flags) is never touched *)
+  Variable cfg0 : config.
+  Definition WF (s : state) : Prop := state_wf s /\ s_cfg s = cfg0.
+
+  Lemma WF_wf s : WF s -> state_wf s.
+  Proof. intros [H _]. exact H. Qed.
+  Lemma WF_set_final_fee v s : WF s -> WF (set_final_fee v s).
+  Proof. intros [H C]. split; [apply state_wf_set_final_fee; exact H | exact C]. Qed.
+  Lemma WF_add_output x s : WF s -> value_wf (o_amount x) -> WF (set_s_outputs (s_outputs s ++ [x]) s).
+  Proof. intros [H C] W. split; [apply state_wf_add_output; assumption | exact C]. Qed.
+  Lemma WF_set_outputs l s : WF s -> Forall (fun o => value_wf (o_amount o)) l -> WF (set_s_outputs l s).
+  Proof. intros [H C] W. split; [apply state_wf_set_outputs; assumption | exact C]. Qed.
 
   Lemma min_fee_pub_spec P :
     hoare WF P (min_fee_pub orc) (fun v s => P s /\ aligned (s_fee_request s) v).
@@ -274,7 +286,7 @@ Section Proofs.
     hoare WF P (add_output orc x) Q.
   Proof.
     intros Wx H. unfold add_output. eapply hoare_bind; [apply output_admissible_spec|]. intros u.
-    intros s o Js Ps. cbn. split; [apply state_wf_add_output; assumption | apply H; assumption].
+    intros s o Js Ps. cbn. split; [apply WF_add_output; assumption | apply H; assumption].
   Qed.
 
   Lemma hoare_put J P (s' : state) (Q : unit -> state -> Prop) :
@@ -494,6 +506,375 @@ Section Proofs.
           (fun r s => loop_inv rq (fst r) (snd r) s)).
         eapply hoare_bind; [apply change_outputs_loop_spec; exact Wl|].
         intros r. apply IH.
+  Qed.
+
+  (* ----------------------------------------------------------------------------------------- *)
+  (* after the fee has been taken out of change_left *)
+
+  Definition open_balance_fee (s : state) (cl : value) (nf : N) : Prop :=
+    consumed_coin s = produced_coin_no_fee s + coin cl + nf /\
+    forall p n, sum_qty (map snd (s_inputs s)) p n + mint_pos (mint_of s) p n
+                = sum_qty (map o_amount (s_outputs s)) p n + mint_neg (mint_of s) p n + qty cl p n.
+
+  Definition inv2 (rq : fee_request) (cl : value) (nf : N) (s : state) : Prop :=
+    s_fee_request s = rq /\ open_balance_fee s cl nf /\ value_wf cl /\ aligned rq nf.
+
+  Lemma value_is_zero_sem v : value_is_zero v = true -> coin v = 0 /\ forall p n, qty v p n = 0.
+  Proof.
+    unfold value_is_zero. rewrite andb_true_iff, N.eqb_eq. intros [C M]. split; [exact C|].
+    intros p n. rewrite qty_unfold. destruct (multiasset_of v) as [m|]; [|reflexivity].
+    unfold ma_len in M. destruct m; [reflexivity|]. cbn in M. lia.
+  Qed.
+
+  Lemma has_assets_false_qty v : has_assets (multiasset_of v) = false -> forall p n, qty v p n = 0.
+  Proof.
+    unfold has_assets. intros H p n. rewrite qty_unfold. destruct (multiasset_of v) as [m|]; [|reflexivity].
+    unfold ma_len in H. destruct m; [reflexivity|]. cbn in H. lia.
+  Qed.
+
+  Lemma produced_set_outputs l s :
+    produced_coin_no_fee (set_s_outputs l s) + sum_coin (map o_amount (s_outputs s))
+    = produced_coin_no_fee s + sum_coin (map o_amount l).
+  Proof. unfold produced_coin_no_fee. cbn [s_outputs set_s_outputs s_cfg s_certs s_proposals s_donation]. lia. Qed.
+
+  Lemma balanced_of_fee s nf cl :
+    s_fee s = Some nf -> open_balance_fee s cl nf -> coin cl = 0 -> (forall p n, qty cl p n = 0) -> balanced s.
+  Proof.
+    intros F [C Q] Hc Hq. exists nf. split; [apply get_fee_if_set_some; exact F|].
+    split; [lia|]. intros p n. rewrite Q, Hq. lia.
+  Qed.
+
+  Lemma top_up_last_spec cl nf : value_wf cl ->
+    hoare WF (fun s => s_fee s = Some nf /\ open_balance_fee s cl nf) (top_up_last cl) (fun _ s => balanced s).
+  Proof.
+    intros Wcl. unfold top_up_last. apply hoare_get_bind. intros s0.
+    destruct (rev (s_outputs s0)) as [|last before] eqn:E; [apply hoare_fail; discriminate|].
+    assert (Eo : s_outputs s0 = rev before ++ [last]).
+    { rewrite <- (rev_involutive (s_outputs s0)), E. reflexivity. }
+    apply hoare_pre_pure with (phi := state_wf s0); [intros s Js [Es _]; subst; exact (proj1 Js)|]. intros W0.
+    pose proof (state_wf_outputs_forall s0 W0) as Fo. rewrite Eo in Fo. apply Forall_app in Fo. destruct Fo as [Fb Fl].
+    inversion Fl as [|? ? Wlast _]. subst.
+    apply hoare_lift_bind. intros amount Ea.
+    destruct (value_checked_add_ok _ _ _ Wlast Wcl Ea) as [Ca [Qa Wa]].
+    apply hoare_put. intros s Js [Es [F [C Q]]]. subst s. split.
+    - apply WF_set_outputs; [exact Js|]. apply Forall_app. split; [exact Fb|]. constructor; [exact Wa | constructor].
+    - exists nf. split; [apply get_fee_if_set_some; exact F|]. split.
+      + pose proof (produced_set_outputs (rev before ++ [mkOutput (o_addr last) amount (o_extra last)]) s0) as Pr.
+        rewrite Eo in Pr. rewrite !map_app, !sum_coin_app in Pr.
+        change (sum_coin (map o_amount [last])) with (coin (o_amount last) + 0) in Pr.
+        change (sum_coin (map o_amount [mkOutput (o_addr last) amount (o_extra last)])) with (coin amount + 0) in Pr.
+        rewrite consumed_coin_set_outputs. lia.
+      + intros p n. specialize (Q p n). cbn [s_inputs s_outputs set_s_outputs]. unfold mint_of in *. cbn [s_mint set_s_outputs].
+        rewrite Eo in Q. rewrite !map_app, !sum_qty_app in *.
+        change (sum_qty (map o_amount [last]) p n) with (qty (o_amount last) p n + 0) in Q.
+        change (sum_qty (map o_amount [mkOutput (o_addr last) amount (o_extra last)]) p n) with (qty amount p n + 0).
+        rewrite Qa. lia.
+  Qed.
+
+  Lemma sub_new_ok cl nf cl1 : value_wf cl -> nf < two64 -> value_checked_sub cl (value_new nf) = Ok cl1 ->
+    nf <= coin cl /\ coin cl1 = coin cl - nf /\ (forall p n, qty cl1 p n = qty cl p n) /\ value_wf cl1.
+  Proof.
+    intros W L E. destruct (value_checked_sub_ok _ _ _ W (value_wf_new _ L) E) as [H1 [H2 [H3 H4]]].
+    cbn in H1, H2. split; [exact H1|]. split; [exact H2|]. split; [|exact H4].
+    intros p n. destruct (H3 p n) as [_ H]. rewrite H, qty_new. lia.
+  Qed.
+
+  Lemma asset_branch_spec fuel addr extra rq ti to fee ce :
+    value_wf ti -> value_wf to -> value_checked_sub ti to = Ok ce -> aligned rq fee -> fee < two64 ->
+    hoare WF (fun s => s_fee_request s = rq /\ open_balance s ce)
+      (asset_branch orc fuel addr extra ti to fee) (fun _ s => balanced s).
+  Proof.
+    intros Wti Wto Ece Al Lfee. unfold asset_branch.
+    apply hoare_lift_bind. intros cl0 Ecl0. rewrite Ece in Ecl0. inversion Ecl0. subst cl0. clear Ecl0.
+    destruct (value_checked_sub_ok _ _ _ Wti Wto Ece) as [_ [_ [_ Wce]]].
+    apply hoare_askA_bind. intros minimum _.
+    apply hoare_weaken with (P := loop_inv rq ce fee).
+    { intros s _ [Erq OB]. repeat split; try assumption; apply OB. }
+    eapply hoare_bind; [apply change_while_loop_spec|]. intros r. cbn beta.
+    apply hoare_pre_pure with (phi := value_wf (fst r) /\ aligned rq (snd r) /\ snd r < two64).
+    { intros s _ [_ [_ [H1 [H2 H3]]]]. auto. }
+    intros [Wr [Alr Lr]].
+    apply hoare_lift_bind. intros cl1 Ecl1.
+    destruct (sub_new_ok _ _ _ Wr Lr Ecl1) as [Hle [Hc [Hq Wcl1]]].
+    apply hoare_get_bind. intros s1.
+    apply hoare_weaken with (P := inv2 rq cl1 (snd r)).
+    { intros s _ [_ [Erq [[C Q] _]]]. split; [exact Erq|]. split; [|split; assumption].
+      split; [lia|]. intros p n. rewrite Hq. apply Q. }
+    eapply hoare_bind with (Q := fun r2 s => inv2 rq (fst r2) (snd r2) s).
+    - apply hoare_if; intros _; [|apply hoare_ret'; auto].
+      eapply hoare_bind; [apply fee_for_output_spec|]. intros af. cbn beta.
+      apply hoare_pre_pure with (phi := af < two64 /\ (forall e, rq = FeeExactly e -> af = 0)).
+      { intros s _ [[Erq _] [L Ex]]. split; [exact L|]. intros e Ee. apply (Ex e). rewrite Erq. exact Ee. }
+      intros [Laf Exaf].
+      apply hoare_weaken with (P := inv2 rq cl1 (snd r)); [intros s _ [H _]; exact H|].
+      apply hoare_lift_bind. intros pot Epot.
+      destruct (sub_new_ok _ _ _ Wcl1 Laf Epot) as [Hle2 [Hc2 [Hq2 Wpot]]].
+      apply hoare_if; intros _; [|apply hoare_ret'; auto].
+      apply hoare_lift_bind. intros nf' Enf. apply checked_add_ok in Enf. destruct Enf as [-> Lnf'].
+      eapply hoare_bind.
+      + apply add_output_spec with (Q := fun _ s => inv2 rq value_zero (snd r + af) s); [exact Wpot|].
+        intros s0 _ [Erq0 [[C0 Q0] [_ Al0]]]. split; [exact Erq0|]. split; [|split; [reflexivity|]].
+        * split.
+          -- rewrite consumed_coin_set_outputs, produced_add_output. cbn [o_amount coin value_zero value_new]. lia.
+          -- intros p n. rewrite out_qty_add_output. cbn [o_amount s_inputs set_s_outputs]. unfold mint_of in *.
+             cbn [s_mint set_s_outputs]. specialize (Q0 p n). rewrite Hq2.
+             change (qty value_zero p n) with 0. lia.
+        * apply aligned_add; assumption.
+      + intros u. apply hoare_ret'. auto.
+    - intros r2. cbn beta.
+      apply hoare_pre_pure with (phi := value_wf (fst r2)); [intros s _ [_ [_ [H _]]]; exact H|]. intros Wr2.
+      eapply hoare_modify_bind with (P' := fun s => s_fee s = Some (snd r2) /\ open_balance_fee s (fst r2) (snd r2)).
+      { intros s Js [Erq [OB [_ Al2]]]. split; [apply WF_set_final_fee; exact Js|].
+        split; [apply set_final_fee_aligned; rewrite Erq; exact Al2 | exact OB]. }
+      eapply hoare_bind with (Q := fun _ s => balanced s).
+      + apply hoare_if; intros Z.
+        * apply hoare_ret'. intros s _ [F OB]. destruct (value_is_zero_sem _ Z) as [Zc Zq].
+          eapply balanced_of_fee; eassumption.
+        * apply top_up_last_spec. exact Wr2.
+      + intros u. apply hoare_ret'. auto.
+  Qed.
+
+  (* ----------------------------------------------------------------------------------------- *)
+  (* the branch without assets *)
+
+  Lemma burn_fin rq ce (P' : state -> Prop) :
+    (forall p n, qty ce p n = 0) -> aligned rq (coin ce) ->
+    (forall s, P' s -> s_fee_request s = rq /\ open_balance s ce) ->
+    hoare WF P' (bindM (modify (set_final_fee (coin ce))) (fun _ => ret false)) (fun _ s => balanced s).
+  Proof.
+    intros Hq Al' HP. eapply hoare_modify_bind with (P' := fun s => balanced s); [|apply hoare_ret'; auto].
+    intros s Js Ps. destruct (HP s Ps) as [Erq OB]. split; [apply WF_set_final_fee; exact Js|].
+    exists (coin ce). split.
+    - apply get_fee_if_set_some. apply set_final_fee_aligned. rewrite Erq. exact Al'.
+    - apply (open_balance_closed s (coin ce) ce OB eq_refl Hq).
+  Qed.
+
+  Lemma burn_extra_spec rq fee ce :
+    aligned rq fee -> fee <= coin ce -> (forall p n, qty ce p n = 0) ->
+    hoare WF (fun s => s_fee_request s = rq /\ open_balance s ce) (burn_extra (coin ce)) (fun _ s => balanced s).
+  Proof.
+    intros Al Hle Hq. unfold burn_extra. apply hoare_get_bind. intros s0.
+    apply hoare_if; intros _; [apply hoare_fail; discriminate|].
+    apply hoare_pre_pure with (phi := s_fee_request s0 = rq); [intros s _ [E [H _]]; subst s; exact H|]. intros Erq0.
+    destruct (s_fee_request s0) as [|nl|e] eqn:E0; subst rq.
+    - apply (burn_fin FeeUnspecified ce); [exact Hq | exact I | intros s [_ H]; exact H].
+    - apply (burn_fin (FeeNotLess nl) ce); [exact Hq | cbn in *; lia | intros s [_ H]; exact H].
+    - apply hoare_if; intros L; [apply hoare_fail; discriminate|].
+      apply (burn_fin (FeeExactly e) ce); [exact Hq | cbn in *; lia | intros s [_ H]; exact H].
+  Qed.
+
+  Lemma pure_branch_spec addr extra rq fee ce :
+    value_wf ce -> aligned rq fee -> fee < two64 -> fee <= coin ce -> (forall p n, qty ce p n = 0) ->
+    hoare WF (fun s => s_fee_request s = rq /\ open_balance s ce)
+      (pure_branch orc addr extra ce fee) (fun _ s => balanced s).
+  Proof.
+    intros Wce Al Lfee Hle Hq. unfold pure_branch.
+    apply hoare_askA_bind. intros min_ada _.
+    apply hoare_if; intros _; [eapply burn_extra_spec; eassumption|].
+    eapply hoare_bind; [apply fee_for_output_spec|]. intros ffc. cbn beta.
+    apply hoare_pre_pure with (phi := ffc < two64 /\ (forall e, rq = FeeExactly e -> ffc = 0)).
+    { intros s _ [[Erq _] [L Ex]]. split; [exact L|]. intros e Ee. apply (Ex e). rewrite Erq. exact Ee. }
+    intros [Lffc Ex].
+    apply hoare_weaken with (P := fun s => s_fee_request s = rq /\ open_balance s ce); [intros s _ [H _]; exact H|].
+    apply hoare_lift_bind. intros nf Enf. apply checked_add_ok in Enf. destruct Enf as [-> Lnf].
+    apply hoare_lift_bind. intros need _.
+    apply hoare_if; intros _; [eapply burn_extra_spec; eassumption|].
+    eapply hoare_modify_bind with (P' := fun s => s_fee s = Some (fee + ffc) /\ open_balance s ce).
+    { intros s Js [Erq OB]. split; [apply WF_set_final_fee; exact Js|]. split; [|exact OB].
+      apply set_final_fee_aligned. rewrite Erq. apply aligned_add; assumption. }
+    apply hoare_lift_bind. intros amount Ea.
+    destruct (sub_new_ok _ _ _ Wce Lnf Ea) as [Hle2 [Hc2 [Hq2 Wa]]].
+    eapply hoare_bind with (Q := fun _ s => balanced s); [|intros u; apply hoare_ret'; auto].
+    apply add_output_spec; [exact Wa|].
+    intros s _ [F OB]. exists (fee + ffc). split; [apply get_fee_if_set_some; exact F|].
+    apply (open_balance_closed _ (fee + ffc) (value_new (fee + ffc))); [|reflexivity | intros; apply qty_new].
+    apply (open_balance_add_output s ce (value_new (fee + ffc)) (mkOutput addr amount extra) OB); cbn [o_amount].
+    - cbn. lia.
+    - intros p n. rewrite Hq2, qty_new. lia.
+  Qed.
+
+  (* ----------------------------------------------------------------------------------------- *)
+  (* add_change *)
+
+  Lemma open_balance_initial s ti to d :
+    state_wf s -> get_total_input s = Ok ti -> get_total_output s = Ok to -> value_checked_sub ti to = Ok d ->
+    open_balance s d /\ value_wf d /\ value_wf ti /\ value_wf to.
+  Proof.
+    intros W Ei Eo Ed.
+    destruct (total_input_spec s ti W Ei) as [Wi [Ci Qi]].
+    destruct (total_output_spec s to W Eo) as [Wo [Co Qo]].
+    destruct (value_checked_sub_ok _ _ _ Wi Wo Ed) as [Hle [Hc [Hq Wd]]].
+    split; [|auto]. split.
+    - rewrite <- Ci, <- Co. lia.
+    - intros p n. rewrite <- Qi, <- Qo. destruct (Hq p n). lia.
+  Qed.
+
+  Lemma checked_add_new_bound a c r : value_checked_add a (value_new c) = Ok r -> c < two64.
+  Proof.
+    unfold value_checked_add, u64_add. cbn [coin value_new].
+    destruct (coin a + c <? two64) eqn:L; cbn [bind]; [intros _; lia | discriminate].
+  Qed.
+
+  Theorem add_change_balances fuel addr extra :
+    hoare WF (fun _ => True) (add_change orc fuel addr extra) (fun _ s => balanced s).
+  Proof.
+    unfold add_change. apply hoare_get_bind. intros s0.
+    destruct (s_fee s0); [apply hoare_fail; discriminate|].
+    apply hoare_pre_pure with (phi := state_wf s0); [intros s Js [E _]; subst; exact (proj1 Js)|]. intros W0.
+    eapply hoare_bind; [apply min_fee_pub_spec|]. intros fee. cbn beta.
+    apply hoare_pre_pure with (phi := aligned (s_fee_request s0) fee); [intros s _ [[E _] A]; subst; exact A|]. intros Al.
+    apply hoare_weaken with (P := fun s => s = s0); [intros s _ [[E _] _]; exact E|].
+    apply hoare_lift_bind. intros ti Eti. apply hoare_lift_bind. intros to Eto.
+    apply hoare_lift_bind. intros shortage _. apply hoare_if; intros _; [apply hoare_fail; discriminate|].
+    apply hoare_lift_bind. intros opf Eopf.
+    pose proof (checked_add_new_bound _ _ _ Eopf) as Lfee.
+    destruct (total_input_spec s0 ti W0 Eti) as [Wti _].
+    destruct (total_output_spec s0 to W0 Eto) as [Wto _].
+    destruct (value_checked_add_ok _ _ _ Wto (value_wf_new _ Lfee) Eopf) as [Copf [Qopf Wopf]].
+    destruct (value_partial_cmp_spec ti opf Wti Wopf) as [SEq [_ [SGt _]]].
+    destruct (value_partial_cmp ti opf) as [[| |]|] eqn:Cmp; try (apply hoare_fail; discriminate).
+    - (* exact *)
+      apply hoare_lift_bind. intros d Ed.
+      destruct (open_balance_initial s0 ti to d W0 Eti Eto Ed) as [OB [Wd _]].
+      destruct (value_checked_sub_ok _ _ _ Wti Wto Ed) as [Hle [Hc [Hq _]]].
+      destruct (proj1 SEq eq_refl) as [Ec Eq].
+      assert (Cd : coin d = fee) by (cbn in Copf; lia).
+      assert (Qd : forall p n, qty d p n = 0).
+      { intros p n. destruct (Hq p n) as [_ H]. rewrite H, Eq, Qopf, qty_new. lia. }
+      eapply hoare_modify_bind with (P' := fun s => balanced s); [|apply hoare_ret'; auto].
+      intros s Js E. subst s. split; [apply WF_set_final_fee; exact Js|].
+      exists fee. split.
+      + apply get_fee_if_set_some. rewrite Cd. apply set_final_fee_aligned. exact Al.
+      + apply (open_balance_closed s0 fee d OB Cd Qd).
+    - (* change *)
+      apply hoare_lift_bind. intros ce Ece.
+      destruct (open_balance_initial s0 ti to ce W0 Eti Eto Ece) as [OB [Wce _]].
+      destruct (value_checked_sub_ok _ _ _ Wti Wto Ece) as [Hle [Hc [Hq _]]].
+      destruct (proj1 SGt eq_refl) as [[Lc Lq] _].
+      assert (Hfee : fee <= coin ce) by (cbn in Copf; lia).
+      apply hoare_if; intros HA.
+      + apply hoare_weaken with (P := fun s => s_fee_request s = s_fee_request s0 /\ open_balance s ce);
+          [intros s _ E; subst; auto|].
+        eapply asset_branch_spec; eassumption.
+      + apply hoare_weaken with (P := fun s => s_fee_request s = s_fee_request s0 /\ open_balance s ce);
+          [intros s _ E; subst; auto|].
+        apply pure_branch_spec; try assumption. apply has_assets_false_qty. exact HA.
+  Qed.
+
+  (* ----------------------------------------------------------------------------------------- *)
+  (* add_inputs_from_and_change: whatever the selection added (an arbitrary extension of the input set) *)
+
+  Definition utxos_wf (l : list (N * value)) : Prop := Forall (fun e : N * value => value_wf (snd e)) l.
+
+  Lemma inputs_insert_forall k v m :
+    value_wfb v = true -> forallb (fun e : N * value => value_wfb (snd e)) m = true ->
+    forallb (fun e : N * value => value_wfb (snd e)) (inputs_insert k v m) = true.
+  Proof.
+    intros Wv. induction m as [|[k' v'] m IH]; intros Wm; cbn [inputs_insert forallb snd].
+    - rewrite Wv. reflexivity.
+    - cbn [forallb snd] in Wm. apply andb_true_iff in Wm. destruct Wm as [W1 W2].
+      destruct (N.compare k k'); cbn [forallb snd]; rewrite ?Wv, ?W1, ?W2; try reflexivity.
+      rewrite IH by exact W2. reflexivity.
+  Qed.
+
+  Lemma WF_add_inputs l s : WF s -> utxos_wf l ->
+    WF (set_s_inputs (fold_left (fun m e => inputs_insert (fst e) (snd e) m) l (s_inputs s)) s).
+  Proof.
+    intros [W C] Wl. split; [|exact C].
+    unfold state_wf, state_wfb in *. cbn [s_inputs s_outputs s_mint set_s_inputs].
+    apply andb_true_iff in W. destruct W as [W Wm]. apply andb_true_iff in W. destruct W as [Wi Wo].
+    rewrite Wo, Wm, !andb_true_r.
+    revert Wi. generalize (s_inputs s). induction Wl as [|e l We Wl IH]; intros m Wi; [exact Wi|].
+    cbn [fold_left]. apply IH. apply inputs_insert_forall; assumption.
+  Qed.
+
+  Lemma add_inputs_spec P l : utxos_wf l -> hoare WF P (add_inputs l) (fun _ _ => True).
+  Proof. intros Wl. apply hoare_modify. intros s Js _. split; [apply WF_add_inputs; assumption | exact I]. Qed.
+
+  Lemma insert_by_forall {A} (key : A -> N) (Q : A -> Prop) x l : Q x -> Forall Q l -> Forall Q (insert_by key x l).
+  Proof.
+    intros Qx F. induction F as [|y l Qy F IH]; cbn [insert_by]; [constructor; auto|].
+    destruct (key y <=? key x); constructor; auto.
+  Qed.
+
+  Lemma sort_by_key_forall {A} (key : A -> N) (Q : A -> Prop) l : Forall Q l -> Forall Q (sort_by_key key l).
+  Proof.
+    unfold sort_by_key. intros F. assert (G : Forall Q (@nil A)) by constructor. revert G. generalize (@nil A).
+    induction F as [|x l Qx F IH]; intros acc G; cbn [fold_left]; [exact G|].
+    apply IH. apply insert_by_forall; assumption.
+  Qed.
+
+  Lemma sort_unused_wf used utxos : utxos_wf utxos -> utxos_wf (sort_unused used utxos).
+  Proof.
+    intros W. unfold sort_unused. apply sort_by_key_forall. apply Forall_forall. intros e I.
+    apply filter_In in I. destruct I as [I _]. unfold utxos_wf in W. rewrite Forall_forall in W. apply W. exact I.
+  Qed.
+
+  Lemma retry_loop_spec fuel addr extra l : utxos_wf l ->
+    hoare WF (fun _ => True) (retry_loop orc fuel addr extra l)
+      (fun r s => match r with Some _ => balanced s | None => True end).
+  Proof.
+    intros Wl. induction Wl as [|e l We Wl IH]; cbn [retry_loop].
+    - apply hoare_ret'. auto.
+    - eapply hoare_bind; [apply (add_inputs_spec _ [e]); constructor; [exact We | constructor]|]. intros u.
+      eapply hoare_bind; [apply hoare_catch; apply add_change_balances|]. intros res. cbn beta.
+      destruct res as [v|].
+      + apply hoare_ret'. auto.
+      + apply hoare_weaken with (P := fun _ => True); [auto|]. exact IH.
+  Qed.
+
+  Lemma hoare_askSel_bind {B} J P st utxos (f : list (N * value) * bool -> M B) R :
+    (forall sel, utxos_wf (fst sel) -> hoare J P (f sel) R) -> hoare J P (bindM (askSel orc st utxos) f) R.
+  Proof.
+    intros H s o Js Ps. unfold bindM, askSel. cbn. apply H; auto. destruct OU as [_ [_ U]]. apply U.
+  Qed.
+
+  Theorem select_and_change_balances fuel utxos addr extra : utxos_wf utxos ->
+    hoare WF (fun _ => True) (add_inputs_from_and_change orc fuel utxos addr extra) (fun _ s => balanced s).
+  Proof.
+    intros Wu. unfold add_inputs_from_and_change. apply hoare_get_bind. intros s0.
+    apply hoare_askSel_bind. intros sel Wsel.
+    eapply hoare_bind; [apply add_inputs_spec; exact Wsel|]. intros u. cbn beta.
+    apply hoare_if; intros _; [apply hoare_fail; discriminate|].
+    apply hoare_get_bind. intros s1.
+    destruct (s_fee s1); [apply hoare_fail; discriminate|].
+    apply hoare_weaken with (P := fun _ => True); [auto|].
+    eapply hoare_bind; [apply hoare_catch; apply add_change_balances|]. intros res. cbn beta.
+    destruct res as [v|]; [apply hoare_ret'; auto|].
+    apply hoare_get_bind. intros s2.
+    apply hoare_weaken with (P := fun _ => True); [auto|].
+    eapply hoare_bind; [apply retry_loop_spec; apply sort_unused_wf; exact Wu|]. intros r. cbn beta.
+    destruct r as [v|]; [apply hoare_ret'; auto | apply hoare_fail; discriminate].
+  Qed.
+
+  (* ----------------------------------------------------------------------------------------- *)
+  (* build_tx: the final guard *)
+
+  Lemma validate_fee_spec P : hoare WF P (validate_fee orc) (fun _ s => P s).
+  Proof.
+    unfold validate_fee. apply hoare_get_bind. intros s0.
+    destruct (get_fee_if_set s0); [|apply hoare_fail; discriminate].
+    apply hoare_askF_bind. intros mf _. apply hoare_if; intros _; [apply hoare_fail; discriminate|].
+    apply hoare_ret'. intros s _ [_ Ps]. exact Ps.
+  Qed.
+
+  Theorem build_tx_balanced :
+    hoare WF (fun _ => True) (build_tx orc) (fun body s => params_balanced s body).
+  Proof.
+    unfold build_tx. eapply hoare_bind; [apply validate_fee_spec|]. intros u. cbn beta.
+    apply hoare_get_bind. intros s0.
+    apply hoare_pre_pure with (phi := state_wf s0); [intros s Js [E _]; subst; exact (proj1 Js)|]. intros W0.
+    apply hoare_lift_bind. intros [] Evb.
+    pose proof (accounting s0 W0 Evb) as Acc.
+    unfold build. apply hoare_get_bind. intros s1.
+    apply hoare_pre_pure with (phi := s1 = s0); [intros s _ [E1 [E0 _]]; congruence|]. intros ->.
+    destruct (get_fee_if_set s0); [|apply hoare_fail; discriminate].
+    eapply hoare_bind with (Q := fun _ s => s = s0).
+    - destruct (s_mint s0).
+      + apply hoare_lift_bind. intros ? _. apply hoare_ret'. intros s _ [E _]. exact E.
+      + apply hoare_ret'. intros s _ [E _]. exact E.
+    - intros u2. apply hoare_askT_bind. intros big. apply hoare_if; intros _; [apply hoare_fail; discriminate|].
+      apply hoare_ret'. intros s _ E. subst s. exact Acc.
   Qed.
 
 End Proofs.
